@@ -161,6 +161,50 @@ def extras(env, acc, purities, indists):
                 acc.violation("hom_visibility", {"indistinguishability": ind, "backend": be}, {"visibility": vis})
 
 
+def check_refused_updates(env, acc, grid):
+    """A long-lived Source: every refused assignment must leave its statistics equal to a fresh Source's."""
+    bad = [("purity", 0.5), ("purity", 0.3), ("purity", 1.2), ("purity", "x"), ("brightness", -0.1),
+           ("brightness", 1.5), ("indistinguishability", 2), ("indistinguishability", True),
+           ("probability_threshold", -1), ("probability_threshold", 1.5)]
+    st = lw.State([2, 1, 0])
+    for b, pu, ind, thr in grid:
+        src = emu.Source(purity=pu, brightness=b, indistinguishability=ind, probability_threshold=thr)
+        for attr, val in bad:
+            acc.tick("executions"); acc.tick("transitions")
+            case = {"scenario": "refused_source_update", "brightness": b, "purity": pu, "indistinguishability": ind,
+                    "threshold": thr, "update": [attr, val], "seed": env.seed}
+            try:
+                setattr(src, attr, val)
+                acc.violation("invalid_source_value_accepted", case, None)
+                src = emu.Source(purity=pu, brightness=b, indistinguishability=ind, probability_threshold=thr)
+                continue
+            except (ValueError, TypeError):
+                acc.tick("rejected_calls")
+            if (src.purity, src.brightness, src.indistinguishability, src.probability_threshold) != (pu, b, ind, thr):
+                acc.violation("refused_update_changed_source", case, None)
+            fresh = emu.Source(purity=pu, brightness=b, indistinguishability=ind, probability_threshold=thr)
+            try:
+                s1, s2 = src._build_statistics(st), fresh._build_statistics(st)
+            except Exception:  # noqa: BLE001  (threshold removing everything etc.: outside the alphabet)
+                continue
+            if set(s1) != set(s2) or any(abs(s1[k] - s2[k]) > 1e-14 for k in s1):
+                acc.violation("refused_update_changed_source", case, {"what": "input statistics differ from a fresh Source"})
+                src = fresh
+        # accepted updates: a reconfigured source equals a fresh one
+        for attr, val in (("purity", 1), ("brightness", 1), ("indistinguishability", 1), ("purity", pu),
+                          ("brightness", b), ("indistinguishability", ind)):
+            setattr(src, attr, val)
+        fresh = emu.Source(purity=pu, brightness=b, indistinguishability=ind, probability_threshold=thr)
+        try:
+            s1, s2 = src._build_statistics(st), fresh._build_statistics(st)
+            if set(s1) != set(s2) or any(abs(s1[k] - s2[k]) > 1e-14 for k in s1):
+                acc.violation("reconfigured_source_differs_from_fresh", {"scenario": "source_reconfigured", "brightness": b,
+                                                                        "purity": pu, "indistinguishability": ind,
+                                                                        "threshold": thr, "seed": env.seed}, None)
+        except Exception:  # noqa: BLE001
+            pass
+
+
 def run(tier, seed):
     env = Env(seed)
     gb = kernel.generic_reals(seed + 7, 2, 0.0, 1.0)
@@ -199,6 +243,7 @@ def run(tier, seed):
 
     acc = kernel.pmap(shard_fn, kernel.interleave(jobs, kernel.NPROC * 4))
     extras(env, acc, P + [0.6, 0.75, 0.999], I + [0.25, 0.5])
+    ru = kernel.Acc(); check_refused_updates(env, ru, [g for g in grid if g[3] == 0]); acc.merge(ru)
     meta = {
         "rule": "grid brightness x purity x indistinguishability x threshold (both boundaries + seed-chosen generic "
                 "points, more grid points than the polynomial degree for <=3 photons) x inputs (bunched, gaps, vacuum, "
@@ -218,6 +263,9 @@ def run(tier, seed):
 def replay(w, acc):
     case = w["case"]
     env = Env(case.get("seed", 0))
+    if str(case.get("scenario", "")).startswith(("refused", "source_")):
+        check_refused_updates(env, acc, [(case["brightness"], case["purity"], case["indistinguishability"], case["threshold"])])
+        return
     if "recipe" not in case:
         extras(env, acc, [case.get("purity", 0.9)], [case.get("indistinguishability", 0.5)])
         return
